@@ -92,6 +92,29 @@ def gen_cases(ctx, n_per_kind):
                 lo_c, hi_c = min(m, (N - 1) / 2), max(N - 1 - m, (N - 1) / 2)
                 p["xc"], p["yc"] = float(rng.uniform(lo_c, hi_c)), float(rng.uniform(lo_c, hi_c))
             cases.append(RC.cast32_scene(sc))
+        # "all three renderers realise the same convention", whatever the number of real-space components of the hybrid renderer:
+        # hybrid (3 = default, 9, 12 components in real space) against Fourier, circular Gaussian PSF, source near the centre
+        if kind == "hybrid":
+            for i in range(max(2, n_per_kind // 5)):
+                N = [48, 49, 64][i % 3]
+                sc = RC.gen_scene(rng, kind, N, RC.gauss_psf(11, float(rng.uniform(1.2, 1.6))), types=["sersic"], mode="single", suffix="", pos_styles=("frac",),
+                                  n_range=(1.0, 6.0), npr=[9, 12, 3][i % 3])
+                p = sc["params"]
+                p["r_eff"], p["ellip"], p["flux"] = float(rng.uniform(2.0, N / 12)), float(rng.uniform(0.3, 0.8)), float(rng.uniform(50, 500))
+                p["xc"], p["yc"] = float(N / 2 + rng.uniform(-2, 2)), float(N / 2 + rng.uniform(-2, 2))
+                sc["cross"] = True
+                cases.append(RC.cast32_scene(sc))
+        # a Sersic profile with a point source on top: both parts share the centre (xc, yc) — judged by the centroid alone
+        for i in range(max(2, n_per_kind // 6)):
+            N = [48, 49][i % 2]
+            psf = RC.gauss_psf(11, float(rng.uniform(1.2, 1.6)))
+            sc = RC.gen_scene(rng, kind, N, psf, types=["sersic_pointsource"], mode="single", suffix="", pos_styles=("frac",), n_range=(0.8, 2.5))
+            p = sc["params"]
+            p["r_eff"], p["ellip"], p["flux"] = float(rng.uniform(2.0, 4.0)), float(rng.uniform(0, 0.6)), float(rng.uniform(50, 500))
+            p["f_ps"] = float(rng.uniform(0.25, 0.6))
+            c = N // 2
+            p["xc"], p["yc"] = float(c - 3.5 + rng.uniform(0, 1)), float(c + 2.5 + rng.uniform(0, 1))     # xc ≠ yc, inside the pixel renderer's box
+            cases.append(RC.cast32_scene(sc))
         # the non-default amplitude path (use_interp_amps=False: the decomposition is computed per call), judged in 64-bit mode
         if kind != "pixel":
             for i in range(max(1, n_per_kind // 5)):
@@ -127,6 +150,29 @@ def oracle_child(payload):
             P = sc["params"]
             ft = jnp.float32 if sc.get("interp", True) else jnp.float64
             img = np.asarray(R.render_source({k: ft(v) for k, v in P.items()}, t), dtype=np.float64)
+            if sc.get("cross"):
+                Rf = RC.build_renderer(dict(sc, kind="fourier"))
+                ref = np.asarray(Rf.render_source({k: ft(v) for k, v in P.items()}, t), dtype=np.float64)
+                sw = max(2.0 * P["r_eff"], 3.0)
+                a, b = RC.weighted_moments(img, sw), RC.weighted_moments(ref, sw)
+                what = f"hybrid (num_pixel_render={sc['npr']}) vs Fourier renderer"
+                if not abs(a["q"] / b["q"] - 1) <= 0.05:
+                    fails.append(("axis-ratio", f"{what}: axis ratio {a['q']:.4f} vs {b['q']:.4f} (1 − ellip = {1 - P['ellip']:.4f})"))
+                if not abs(((a["pa"] - b["pa"]) + np.pi / 2) % np.pi - np.pi / 2) <= 0.06:
+                    fails.append(("angle", f"{what}: position angle {a['pa']:.4f} vs {b['pa']:.4f}"))
+                if not np.hypot(a["xc"] - b["xc"], a["yc"] - b["yc"]) <= 0.2:
+                    fails.append(("centroid", f"{what}: centroid ({a['xc']:.3f},{a['yc']:.3f}) vs ({b['xc']:.3f},{b['yc']:.3f})"))
+                if not abs(a["size2"] / b["size2"] - 1) <= 0.08:
+                    fails.append(("size", f"{what}: squared size {a['size2']:.4f} vs {b['size2']:.4f}"))
+                out.append(dict(fails=fails))
+                continue
+            if t == "sersic_pointsource":
+                a = RC.weighted_moments(img, max(2.0 * P["r_eff"], 3.0))
+                d = float(np.hypot(a["xc"] - P["xc"], a["yc"] - P["yc"]))
+                if not d <= 0.2:
+                    fails.append(("centroid", f"centroid of sersic + point source ({a['xc']:.3f},{a['yc']:.3f}) vs (xc, yc) = ({P['xc']:.3f},{P['yc']:.3f}): {d:.3f} px"))
+                out.append(dict(fails=fails))
+                continue
             ref = RC.reference_image(N, sc["psf"], t, P)
             rr = max(v for k, v in P.items() if k.startswith("r_eff"))
             sw = max(2.0 * rr, 3.0)
